@@ -9,7 +9,8 @@ import MgpuModel.C02
   dwords), dispatch ptr (2), queue ptr (2), kernarg segment ptr (2), dispatch id (2), flat scratch
   init (2), private segment size (1), work-group count X, Y, Z (1 each), then the system SGPRs
   work-group id X, Y, Z (1 each), each present iff its enable bit is set;
-* the work-group-count registers `(grid + wg − 1) / wg` computed in `uint32` (`C02.wgCount`);
+* the work-group-count registers `(grid + wg − 1) / wg` computed in 64 bits (`C02.wgCount`; before the repair in
+  `uint32`, `C02.wgCountOld`);
 * the HIP hidden kernel arguments of V5 code objects (`gputensor.newCDNA3HiddenArgs`, serialised by
   `binary.Write` as the driver does with every kernel-argument struct);
 * the byte layout of `kernels.HsaKernelDispatchPacket` (what a kernel reads through the dispatch
@@ -101,6 +102,20 @@ def CountsFit (f : C02.Flags) (a : C02.Args) : Prop :=
 instance (f : C02.Flags) (a : C02.Args) : Decidable (CountsFit f a) := by
   unfold CountsFit; exact inferInstance
 
+/-- the dispatch packet is typed: `GridSize` is a `uint32`, `WorkgroupSize` a `uint16` (on every axis
+    whose count register is enabled) — all the repaired count registers need -/
+def CountsTyped (f : C02.Flags) (a : C02.Args) : Prop :=
+  (f.cntX = true → a.gx < 4294967296 ∧ a.wx < 65536) ∧ (f.cntY = true → a.gy < 4294967296 ∧ a.wy < 65536) ∧
+  (f.cntZ = true → a.gz < 4294967296 ∧ a.wz < 65536)
+
+instance (f : C02.Flags) (a : C02.Args) : Decidable (CountsTyped f a) := by
+  unfold CountsTyped; exact inferInstance
+
+/-- every enabled count register holds the true number of work-groups of its axis -/
+def CountsOk (f : C02.Flags) (a : C02.Args) : Prop :=
+  (f.cntX = true → C02.wgCount a.gx a.wx = nwgI a.gx a.wx) ∧ (f.cntY = true → C02.wgCount a.gy a.wy = nwgI a.gy a.wy) ∧
+  (f.cntZ = true → C02.wgCount a.gz a.wz = nwgI a.gz a.wz)
+
 /-! ## HIP hidden kernel arguments (V5 code objects) -/
 
 /-- `gputensor.CDNA3HiddenArgs` -/
@@ -112,7 +127,17 @@ structure Hidden where
   dims : Nat      -- HiddenGridDims (uint16)
 deriving Repr, DecidableEq
 
-/-- `newCDNA3HiddenArgs(globalSize, localSize)`; a zero local size divides by zero -/
+/-- `newCDNA3HiddenArgs(globalSize, localSize)` before the repair: block counts `(g + l − 1) / l` in `uint32` -/
+def hiddenOfOld (g : Geo) : Except String Hidden :=
+  if g.wx = 0 ∨ g.wy = 0 ∨ g.wz = 0 then .error "div0" else
+  .ok { bc := (C02.wgCountOld g.gx g.wx, C02.wgCountOld g.gy g.wy, C02.wgCountOld g.gz g.wz),
+        gs := (g.wx, g.wy, g.wz),
+        rem := (g.gx % g.wx % 65536, g.gy % g.wy % 65536, g.gz % g.wz % 65536),
+        off := (0, 0, 0),
+        dims := if g.gz > 1 then 3 else if g.gy > 1 then 2 else 1 }
+
+/-- `newCDNA3HiddenArgs(globalSize, localSize)` (block counts computed in 64 bits); a zero local size
+    divides by zero -/
 def hiddenOf (g : Geo) : Except String Hidden :=
   if g.wx = 0 ∨ g.wy = 0 ∨ g.wz = 0 then .error "div0" else
   .ok { bc := (C02.wgCount g.gx g.wx, C02.wgCount g.gy g.wy, C02.wgCount g.gz g.wz),
